@@ -157,7 +157,7 @@ pub fn check_lex(ctx: &mut Ctx, text: &str) {
 }
 
 fn lexer_sweep(ctx: &mut Ctx) {
-    let alpha: Vec<char> = "a10<=>-\"'{}#$ \u{e9}or\\/".chars().collect();
+    let alpha: Vec<char> = "a10<=>-\"'{}#$ \u{e9}or\\/\u{2167}".chars().collect();
     let maxlen = if ctx.thorough() { 6 } else { 5 };
     let mut base = 0u64;
     for len in 0..=maxlen {
@@ -458,9 +458,41 @@ fn boundary_sweep(ctx: &mut Ctx) {
     }
 }
 
+/// very many brackets / parentheses / binders in one text, flat (not nested): 9 000 counting
+/// lists, 9 000 parenthesised atoms, 3 000 quantifiers in a row of disjuncts
+fn many_constructs(ctx: &mut Ctx) {
+    let texts: Vec<(usize, String)> = vec![
+        (0, (0..9000).map(|i| format!("[a, b{}] >= 1", i % 7)).collect::<Vec<_>>().join(" | ")),
+        (1, (0..9000).map(|i| format!("(a{})", i % 5)).collect::<Vec<_>>().join(" & ")),
+        (2, (0..3000).map(|i| format!("(exists x{} # x{} & a)", i % 3, i % 3)).collect::<Vec<_>>().join(" | ")),
+        (3, format!("[{}] >= 4000", (0..9000).map(|i| format!("a{}", i % 11)).collect::<Vec<_>>().join(", "))),
+    ];
+    for (i, t) in texts {
+        if ctx.mine(i as u64) {
+            refl::MAX_DEPTH.with(|d| d.set(1_000_000));
+            let r = std::thread::scope(|sc| std::thread::Builder::new().stack_size(1 << 30).spawn_scoped(sc, || {
+                refl::MAX_DEPTH.with(|d| d.set(1_000_000));
+                let mut c2 = Ctx::new("C08", ctx.tier, ctx.seed, 0, 1);
+                check_parse(&mut c2, &t);
+                c2.violations
+            }).ok().and_then(|h| h.join().ok()));
+            ctx.count("many_construct_texts", 1);
+            match r {
+                Some(vs) => {
+                    for v in vs {
+                        ctx.violation(format!("parse: text with thousands of flat constructs (kind {i})"), v.what.chars().take(300).collect(), json!({"part": "many", "kind": i}));
+                    }
+                }
+                None => panic!("machinery: the large-stack thread failed"),
+            }
+        }
+    }
+}
+
 fn run(ctx: &mut Ctx) {
     lexer_sweep(ctx);
     boundary_sweep(ctx);
+    many_constructs(ctx);
     let lex_all = all_lexemes();
     let lex_kinds: Vec<String> = kinds().iter().map(|t| refl::render_canon(std::slice::from_ref(t))).collect();
     let lex_red: Vec<String> = reduced_kinds().iter().map(|t| refl::render_canon(std::slice::from_ref(t))).collect();
@@ -480,6 +512,13 @@ fn replay(ctx: &mut Ctx, case: &Value) {
     let text = case["text"].as_str().unwrap_or("");
     match case["part"].as_str() {
         Some("lex") => check_lex(ctx, text),
+        Some("many") => {
+            let mut c2 = Ctx::new("C08", ctx.tier, ctx.seed, case["kind"].as_u64().unwrap_or(0) % 4, 4);
+            many_constructs(&mut c2);
+            for v in c2.violations {
+                ctx.violation(v.key, v.what, v.replay);
+            }
+        }
         Some("keyword-ordering") => {
             let mut c2 = Ctx::new("C08", ctx.tier, ctx.seed, 0, 1);
             keyword_ordering_sweep(&mut c2);
